@@ -606,10 +606,18 @@ func (j *jsonReader) Bitmask(realtag, tag int) (int32, error) {
 		result := int32(0)
 		for _, part := range parts {
 			part = strings.TrimSpace(part)
+			if part == "" {
+				// A mask without any bit set is written as an empty string
+				continue
+			}
 			var parsed int64
 			var err error
 			if strings.HasPrefix(part, "0x") {
-				parsed, err = strconv.ParseInt(part[2:], 16, 32)
+				// Masks are unsigned 32 bits values: bit 31 may be set
+				var u uint64
+				u, err = strconv.ParseUint(part[2:], 16, 32)
+				//nolint:gosec // this cast is safe as we are parsing a 32 bits value
+				parsed = int64(int32(uint32(u)))
 			} else {
 				parsed, err = strconv.ParseInt(part, 10, 32)
 				if err != nil {
